@@ -254,6 +254,14 @@ class MakeFromCollectionImpl(OmegaMixin, Contract):
     def on_python_result(self, eng, st, f, args, r, n):
         st.ghost['flatten_result'] = r.ref
 
+    def on_getattr(self, eng, st, obj, attr, res, n):
+        h = st.get('handle')
+        if obj.ref.eq(h.ref if isinstance(h, PyObj) else h):
+            st.ghost['attr:' + attr] = res.ref            # an attribute of THIS collection
+
+    def on_dict_keys_result(self, eng, st, d, r, n):
+        st.ghost['dict_keys'] = r                          # the key list made for THIS dict node
+
     def raises(self, cx):
         return {'pybind11::value_error': None, 'std::runtime_error': None, 'pybind11::error_already_set': None,
                 'pybind11::cast_error': None}
@@ -298,6 +306,18 @@ class MakeFromCollectionImpl(OmegaMixin, Contract):
         h = cx.old('handle').ref
         out.append(('namedtuple-or-structseq-root-records-the-class',
                     z3.Implies(z3.Or(k == K['NamedTuple'], k == K['StructSequence']), t.sel('node_data', last) == M.py_type(h))))
+        nd = t.sel('node_data', last)
+        g = cx.st.ghost
+        is_k = lambda *names: z3.Or(*[k == K[nm] for nm in names])
+        keys = g.get('dict_keys')
+        df, ml = g.get('attr:default_factory'), g.get('attr:maxlen')
+        out += [('tuple-list-none-and-leaf-roots-carry-no-metadata', z3.Implies(is_k('Tuple', 'List', 'None', 'Leaf'), nd == NULL)),
+                ('dict-and-ordereddict-roots-record-the-key-list-that-was-traversed',
+                 z3.Implies(is_k('Dict', 'OrderedDict'), nd == keys if keys is not None else z3.BoolVal(False))),
+                ('defaultdict-root-records-(default_factory, the key list that was traversed)',
+                 z3.Implies(is_k('DefaultDict'), z3.And(M.py_len(nd) == 2, M.py_item(nd, 0) == df, M.py_item(nd, 1) == keys)
+                            if keys is not None and df is not None else z3.BoolVal(False))),
+                ('deque-root-records-its-maxlen', z3.Implies(is_k('Deque'), nd == ml if ml is not None else z3.BoolVal(False)))]
         fr = cx.st.ghost.get('flatten_result')
         if fr is not None:
             T = as_tuple(fr)
